@@ -35,6 +35,7 @@ type Step struct {
 	Faults   int    `json:"faults"`
 	Kind     string `json:"kind"`      // "eof" | "timeout"
 	WithData bool   `json:"with_data"` // the first fault is returned together with the last data of this step
+	Idle     int    `json:"idle"`      // zero-length reads without error ((0, nil)) after the data, before the faults
 }
 
 type Case struct {
@@ -58,6 +59,7 @@ type faultReader struct {
 	si       int
 	given    int // bytes of the current step already supplied
 	faults   int // faults of the current step already returned
+	idles    int // idle reads of the current step already returned
 	terminal string
 	// observations
 	supplied   int
@@ -97,6 +99,10 @@ func (r *faultReader) Read(p []byte) (int, error) {
 			}
 			return n, nil
 		}
+		if r.idles < st.Idle {
+			r.idles++
+			return 0, nil
+		}
 		if r.faults < st.Faults {
 			r.faults++
 			r.faultTimes = append(r.faultTimes, time.Now())
@@ -104,7 +110,7 @@ func (r *faultReader) Read(p []byte) (int, error) {
 			return 0, r.err(st.Kind)
 		}
 		r.si++
-		r.given, r.faults = 0, 0
+		r.given, r.faults, r.idles = 0, 0, 0
 	}
 	r.afterEnd++
 	if r.terminal == "other-error" {
@@ -118,7 +124,7 @@ func check(c Case, o *stats.Obs) error {
 	// Normalise the script against the stream: the steps' data must add up to the stream.
 	total := 0
 	for _, s := range c.Steps {
-		if s.Data < 0 || s.Faults < 0 || s.Faults > 2 {
+		if s.Data < 0 || s.Faults < 0 || s.Faults > 2 || s.Idle < 0 || s.Idle > 4 {
 			o.Skip = true
 			return nil
 		}
@@ -209,6 +215,9 @@ collect:
 		fmt.Fprintf(&b, "script (timeout %d ms, wait %d ms, bufio %d):", c.TimeoutMs, c.WaitMs, bs)
 		for _, s := range c.Steps {
 			fmt.Fprintf(&b, " data(%d)", s.Data)
+			for i := 0; i < s.Idle; i++ {
+				fmt.Fprintf(&b, " idle")
+			}
 			for i := 0; i < s.Faults; i++ {
 				fmt.Fprintf(&b, " %s", s.Kind)
 			}
@@ -310,8 +319,13 @@ func gen1(t *rapid.T) Case {
 				doubles++
 			}
 			st.WithData = st.Data > 0 && rapid.IntRange(0, 3).Draw(t, "withData") == 0
+			if !st.WithData && rapid.IntRange(0, 3).Draw(t, "idle") == 0 {
+				st.Idle = rapid.IntRange(1, 3).Draw(t, "nIdle")
+			}
+		} else if rapid.IntRange(0, 5).Draw(t, "idleOnly") == 0 {
+			st.Idle = rapid.IntRange(1, 3).Draw(t, "nIdle")
 		}
-		if st.Data > 0 || st.Faults > 0 {
+		if st.Data > 0 || st.Faults > 0 || st.Idle > 0 {
 			c.Steps = append(c.Steps, st)
 		}
 	}
